@@ -375,8 +375,10 @@ class Run:
                 done = True
                 self.evaluations += o["evaluations"]
                 self.classes.update(o["classes"])
-                us = self.unit_stats.setdefault(job["unit"] + "@" + job["cfg"], {"evaluations": 0})
+                us = self.unit_stats.setdefault(job["unit"] + "@" + job["cfg"], {"evaluations": 0, "jobs": 0, "cpu_wall_s": 0.0})
                 us["evaluations"] += o["evaluations"]
+                us["jobs"] += 1
+                us["cpu_wall_s"] = round(us["cpu_wall_s"] + time.time() - r["t0"], 1)
                 if len(self.samples) < 12:
                     for s in o["samples"][:2]:
                         self.samples.append({"unit": job["unit"], "cfg": job["cfg"], "case": s})
@@ -445,7 +447,7 @@ class Run:
         nj["restarts"] = job["restarts"] + 1
         return nj
 
-    def compare_digests(self, keyprefix, what):
+    def compare_digests(self, keyprefix, what, ref=None, same_cfg=False):
         """For every (unit, params) executed under several (cfg, fill) variants compare the per-case
         transcript digests; a difference is a violation keyed by unit and the pair of variants."""
         compared = 0
@@ -460,8 +462,17 @@ class Run:
                         a, b = line.split()
                         d[int(a)] = b
                 tables.append((cfg, fill, d, job))
-            base = tables[0]
-            for other in tables[1:]:
+            tables.sort(key=lambda t: (0 if (ref and t[0] == ref) else 1, t[0], t[1]))
+            pairs = []
+            if same_cfg:
+                bycfg = {}
+                for t in tables:
+                    bycfg.setdefault(t[0], []).append(t)
+                for ts in bycfg.values():
+                    pairs += [(ts[0], o) for o in ts[1:]]
+            else:
+                pairs = [(tables[0], o) for o in tables[1:]]
+            for base, other in pairs:
                 common = set(base[2]) & set(other[2])
                 compared += len(common)
                 bad = sorted(i for i in common if base[2][i] != other[2][i])
@@ -469,7 +480,7 @@ class Run:
                     va = "%s/fill%02x" % (base[0], base[1])
                     vb = "%s/fill%02x" % (other[0], other[1])
                     job = dict(_jobkey(other[3]))
-                    self.add_violation("%s:%s:%s-vs-%s" % (keyprefix, unit, va, vb),
+                    self.add_violation("%s:%s:%s-vs-%s" % (keyprefix, unit, vb, va),
                                        "%s: %d case(s) differ between %s and %s (first idx %d)" % (what, len(bad), va, vb, bad[0]),
                                        {"job": job, "idx": bad[0], "case": None, "detail": {"differing_idx": bad[:20]},
                                         "digest_pair": [_jobkey(base[3]), _jobkey(other[3])]})
@@ -566,6 +577,29 @@ def replay(prop, path):
     """Re-execute exactly the recorded case; prints the key(s) it produces."""
     rec = json.load(open(path))
     info = rec["info"]
+    if info.get("digest_pair"):
+        # re-execute the differing case under both variants and compare the transcript digests again
+        idx = info["idx"]
+        run = Run(prop, rec.get("tier", "quick"), rec.get("seed", 1))
+        jobs = []
+        for j in info["digest_pair"]:
+            j = dict(j)
+            j["resume_after"], j["stop_after"] = idx - 1, idx
+            jobs.append(j)
+        run.seed = jobs[0].get("seed", run.seed)
+        run.run_jobs(jobs)
+        tabs = []
+        for (unit, pj), variants in run.digest_files.items():
+            for cfg, fill, path, job in variants:
+                d = dict(l.split() for l in open(path)) if path and os.path.exists(path) else {}
+                tabs.append((cfg, fill, d.get(str(idx))))
+        for t in tabs:
+            print("REPLAY variant=%s/fill%02x digest=%s" % t)
+        shutil.rmtree(run.work, ignore_errors=True)
+        if len(tabs) == 2 and tabs[0][2] != tabs[1][2]:
+            print("VIOLATION property=%s replay=%s" % (prop, path))
+            return 1
+        return 0
     if info.get("replay_job"):
         job = dict(info["replay_job"])
     else:
